@@ -44,7 +44,7 @@ fn impl_table(text: &str, names: &[String], cj: &Value) -> Result<TT, Violation>
     let v = |m: String| Violation::new(m, cj.clone());
     let limit = (1usize << names.len()) + 2;
     match front::run_text(text.as_bytes(), None, Some(limit)) {
-        Run::ParseErr(e) => Err(v(format!("well-formed fixed-point formula rejected: {}", e))),
+        Run::ParseErr(e) => Err(front::rejection(text, "well-formed fixed-point formula", &e, cj)),
         Run::ParsePanic(p) => Err(v(format!("parser panicked: {}", p))),
         Run::EvalPanic(p, _) => {
             if p.contains("rsbdd-verif: fp iteration limit") {
